@@ -43,7 +43,7 @@ VIEWS = {
     # the C-style vendored emulator cores themselves (default configuration; facts for the units below only)
     'CORES': ([], []),
 }
-EMU_CORE_UNITS = ['src/chips/gens/Ym2612.cpp', 'src/chips/mame/mame_ym2612fm.c', 'src/chips/nuked/ym3438.c']
+EMU_CORE_UNITS = ['src/chips/gens/Ym2612.cpp', 'src/chips/mame/mame_ym2612fm.c', 'src/chips/nuked/ym3438.c', 'src/chips/mamefm/resampler.cpp']
 QUICK_VIEWS = ['V0', 'V1']
 THOROUGH_VIEWS = list(VIEWS)
 
